@@ -11,6 +11,7 @@ use serde::{Deserialize, Serialize};
 use std::collections::BTreeMap;
 
 pub mod c03;
+pub mod c04;
 
 #[derive(Clone, Copy, Debug, PartialEq, Serialize, Deserialize)]
 pub enum Tier {
@@ -511,6 +512,7 @@ fn verify_replay_file(prop: &dyn Property, path: &str) -> bool {
 pub fn lookup(id: &str) -> Option<Box<dyn Property>> {
     match id {
         "C03" => Some(Box::new(c03::C03)),
+        "C04" => Some(Box::new(c04::C04)),
         _ => None,
     }
 }
